@@ -19,6 +19,8 @@ pub struct Case {
 pub struct C02;
 
 const KEYS: [&str; 5] = ["a", "b", "c", "msg", "ts_1"];
+/// keys that look like array indexes: `[0]` applied to an object must not find them
+const DIGIT_KEYS: [&str; 3] = ["0", "1", "2"];
 const NUM_LEAVES: [&str; 18] = [
     "0", "1", "-7", "42", "9223372036854775807", "-9223372036854775808", "9223372036854775808", "18446744073709551615", "123456789012345678901234567890", "1.5", "-0.25", "1e2", "5.0", "1E-3",
     "0.1", "1e400", "-0", "12345678.12345678",
@@ -61,8 +63,9 @@ fn gen_doc(t: &mut Tape, depth: usize) -> J {
     }
     let n = 1 + t.draw(4);
     let mut items: Vec<(String, J)> = Vec::new();
+    let digit_keys = t.chance(1, 6);
     for _ in 0..n {
-        let k = t.pick(&KEYS).to_string();
+        let k = if digit_keys { t.pick(&DIGIT_KEYS).to_string() } else { t.pick(&KEYS).to_string() };
         if items.iter().any(|(x, _)| x == &k) {
             continue;
         }
@@ -273,6 +276,14 @@ impl Property for C02 {
         let ncols = 1 + t.draw(6);
         for c in 0..ncols {
             let (mut path, leaf) = if all.is_empty() { (vec![JsonPart::Field("a".into())], J::Null) } else { t.pick(&all).clone() };
+            // a field that is a digit string cannot be written as `.0`: write it as `[0]` (which must then be absent)
+            for part in path.iter_mut() {
+                if let JsonPart::Field(name) = part {
+                    if let Ok(i) = name.parse::<u64>() {
+                        *part = JsonPart::Index(i);
+                    }
+                }
+            }
             match t.draw(10) {
                 0 => {
                     // wrong key / index at the end
